@@ -49,7 +49,7 @@ const S4_STUB: &[&str] = &[
 const S4_BOUNDS: &str = "1-4 client threads, <= 8 operations, <= 4 in flight, <= 40 scheduling steps per history; specs: register, write-once register, vec (stack), test-and-set (default is_valid_step)";
 
 pub const PROPS: &[PropInfo] = &[
-    PropInfo { id: "C08", subsystem: "s4", runs: (400000, 20000000), rule: "one case = one concurrent history produced by a seeded schedule of simulated clients against a (possibly faulty) simulated object, fed event by event to the real tester; invoke/return events are stamped with their global sequence number; distinct = distinct (spec, initial value, event list); non-trivial = >= 3 events", oracle: "after every event: is_consistent() == exhaustive search of the definition (all orders of the completed operations plus any subset of in-flight ones, per-thread order, real-time precedence, legal for the spec); serialized_history() is such an order; ill-formed events give Err and stay Err/false/None", real: S4_REAL, stub: S4_STUB, bounds: S4_BOUNDS },
+    PropInfo { id: "C08", subsystem: "s4", runs: (300000, 12000000), rule: "one case = one concurrent history produced by a seeded schedule of simulated clients against a (possibly faulty) simulated object, fed event by event to the real tester; invoke/return events are stamped with their global sequence number; distinct = distinct (spec, initial value, event list); non-trivial = >= 3 events", oracle: "after every event: is_consistent() == exhaustive search of the definition (all orders of the completed operations plus any subset of in-flight ones, per-thread order, real-time precedence, legal for the spec); serialized_history() is such an order; ill-formed events give Err and stay Err/false/None", real: S4_REAL, stub: S4_STUB, bounds: S4_BOUNDS },
     PropInfo { id: "C14", subsystem: "s4", runs: (400000, 20000000), rule: "as C08, both testers fed the same events", oracle: "as C08 without the real-time filter; every prefix accepted by the linearizability tester is accepted by the sequential-consistency tester; a clone taken before each event is unchanged after the original moved on", real: S4_REAL, stub: S4_STUB, bounds: S4_BOUNDS },
     PropInfo { id: "C17", subsystem: "s3", runs: (4000, 200000), rule: "one case = 1-4 instrumented script actors run by the real actor::spawn() loop (one simulation thread each) on virtual UDP sockets bound to seeded IPv4 addresses, under the scheduler and the virtual clock, with per-run rates of datagram drop, duplication, delay/reordering, send and receive errors, junk / empty / foreign datagrams injected by an outside peer, stalls; distinct = distinct hash of scheduling decisions and hook events; non-trivial = at least two handler invocations", oracle: "merged handler log vs socket-seam log: on_start first and once; every on_msg matches (injectively) a datagram already delivered to that socket with the deserialized payload and Id::from(sender address); sends of a handler appear on its socket in order before its next handler; a timer fires only while armed and no earlier than arming + range.start; state threading; Id <-> SocketAddrV4 round trips", real: &["actor::spawn() event loop, on_command, timer bookkeeping (next_interrupts)", "Id <-> SocketAddrV4 conversions", "serde_json codec through the serialize/deserialize fn pointers", "crossbeam scoped actor threads (real threads, scheduled by the baton scheduler)"], stub: &["UdpSocket (virtual UDP with fault injection)", "Instant::now / read timeouts (virtual clock)", "rand::thread_rng in spawn.rs (seeded)", "OS scheduling of the actor threads"], bounds: "1-4 actors + 1 outside peer, <= 8 injected datagrams, virtual horizon 0.1-2.5 s, network latency 0.2-51 ms, timer ranges 1-800 ms, step budget 40k" },
     PropInfo { id: "C18", subsystem: "s4", runs: (300000, 15000000), rule: "spec half: the operation sequence of a generated history is applied to the reference object; every step is checked with its actual return and a perturbed one; harness half: seeded walks of register-harness actor systems (RegisterActor / WORegisterActor clients, servers answering each request at most once) over all network kinds", oracle: "is_valid_step(op, r) == (invoke(op) == r) and equal object state after a valid step; is_valid_history == invoking from the initial object; per client at most one outstanding request with a fresh id; the recorded tester equals a shadow tester fed with exactly the client-visible sends and accepted replies, and never reports an ill-formed history", real: S4_REAL, stub: S4_STUB, bounds: S4_BOUNDS },
@@ -83,6 +83,10 @@ pub fn run_case(prop: &str, seed: u64) -> (RunReport, Value) {
         // checker half: DFS with / without symmetry on symmetric process models
         return crate::s1::symmetry::run_case(seed);
     }
+    if prop == "C08" && seed % 5 == 0 {
+        // from the inside: single-copy register systems must be accepted
+        return crate::s2::run_case(prop, seed);
+    }
     if prop == "C18" {
         // two halves: reference objects (S4) and register-harness systems (S2)
         return if seed % 2 == 0 { crate::s4::run_case(prop, seed) } else { crate::s2::run_case(prop, seed) };
@@ -104,7 +108,7 @@ pub fn replay(prop: &str, scenario: &Value) -> Result<RunReport, String> {
     if prop == "C05" && scenario.get("workers").is_some() {
         return crate::s1::market::replay(scenario);
     }
-    if prop == "C18" {
+    if prop == "C18" || prop == "C08" {
         return if scenario.get("proto").is_some() { crate::s2::replay(prop, scenario) } else { crate::s4::replay(prop, scenario) };
     }
     match info(prop).map(|i| i.subsystem) {
@@ -124,7 +128,7 @@ pub fn summary(prop: &str, scenario: &Value) -> Value {
     if prop == "C05" && scenario.get("workers").is_some() {
         return crate::s1::market::summary(scenario);
     }
-    if prop == "C18" {
+    if prop == "C18" || prop == "C08" {
         return if scenario.get("proto").is_some() { crate::s2::summary(scenario) } else { crate::s4::summary(scenario) };
     }
     match info(prop).map(|i| i.subsystem) {
@@ -144,7 +148,7 @@ pub fn shrink_candidates(prop: &str, scenario: &Value) -> Vec<Value> {
     if prop == "C05" && scenario.get("workers").is_some() {
         return crate::s1::market::shrink_candidates(scenario);
     }
-    if prop == "C18" {
+    if prop == "C18" || prop == "C08" {
         return if scenario.get("proto").is_some() { crate::s2::shrink_candidates(scenario) } else { crate::s4::shrink_candidates(scenario) };
     }
     match info(prop).map(|i| i.subsystem) {
